@@ -216,6 +216,11 @@ int muggle_str_rstrip_idx(const char *str)
 	}
 
 	int str_len = (int)strlen(str);
+	if (str_len == 0)
+	{
+		return -1;
+	}
+
 	int idx = str_len - 1;
 	while (isspace(str[idx]))
 	{
